@@ -97,3 +97,9 @@ Proof.
   - apply within_total64; [apply Hb|apply HG].
   - unfold dmax. lia.
 Qed.
+
+(* with the option off the model is Search.v's engine *)
+Lemma dedup_off : forall basis cfg k s p,
+  analyze_gen_d basis cfg k false s p = analyze_gen false basis cfg k s p /\
+  analyze_all_gen_d basis cfg k false s p = analyze_all_gen false basis cfg k s p.
+Proof. intros basis cfg k s p. split; [apply analyze_d_off|apply analyze_all_d_off]. Qed.
